@@ -148,7 +148,9 @@ func decider(s, f, d uint64, errs string, ign bool, mf uint64, mfr int) string {
 // virtual time with scripted outcomes.
 // every way setup or teardown can fail
 var phases = []string{"ok", "setup-fails", "teardown-fails", "setup-Fail", "setup-panics(string)", "setup-panics(error)", "teardown-Fail",
-	"teardown-panics(string)", "teardown-panics(error)", "teardown-runtime-error"}
+	"teardown-panics(string)", "teardown-panics(error)", "teardown-runtime-error",
+	// the caller interrupts while setup is still running, and setup then fails / a cleanup stops with Fatal
+	"interrupted-during-setup-which-then-fails", "teardown-Fatal"}
 
 func cliSuite(full bool) hlib.Suite {
 	return hlib.Suite{Name: fmt.Sprintf("cli-exit-status/full=%v", full), Weight: 2, Run: func(r *hlib.Rec) {
@@ -211,6 +213,11 @@ func cliSuite(full bool) hlib.Suite {
 											t.Cleanup(func() { panic(errors.New("teardown panics")) })
 										case "teardown-runtime-error":
 											t.Cleanup(func() { var m map[string]int; m["x"] = 1 })
+										case "teardown-Fatal":
+											t.Cleanup(func() { t.Fatal(errors.New("cleanup gives up")) })
+										case "interrupted-during-setup-which-then-fails":
+											hlib.CancelCurrentRun()
+											t.Error(errors.New("dependency not reachable"))
 										}
 										return func(t *f1testing.T) {
 											id, _ := strconv.Atoi(t.Iteration)
